@@ -232,7 +232,7 @@ def main(argv=None):
         for k, m in getattr(mod, 'REQUIRED', {}).get(tier, {}).items():
             got = counters.get(k, 0)
             if isinstance(got, dict):
-                got = sum(got.values())
+                got = len(got)          # dict counters: number of distinct keys observed
             if got < m:
                 why_inc.append('monitor counter %s=%s below %s (deciding monitor not reached)' % (k, got, m))
         if skipped[0] and ran < 0.5 * len(cases):
